@@ -438,6 +438,26 @@ def Graph.firstInconsistentOther (g : Graph) : Option (Option Nat × Nat × Nat)
                (decide (g.bonus st.2 = 0) || decide (g.Hfun st.2 st.1 = s.c + g.bonus st.2))
         if ok || intoCT || uturn then none else some (st.1, st.2, s.w)
 
+/-- the cost the property speaks of, for a vertex path (source first): every hop charged by `cost()`
+    — its `getDist()` length plus the bend penalty —, the last hop included -/
+def fullCost (g : Graph) : Option Nat → List Nat → Rat
+  | prev, v :: w :: rest =>
+    let d : Rat := match (g.adj.getD v []).find? (fun e => e.to = w) with
+      | some e => e.dist
+      | none => 0
+    cost g d prev v w + fullCost g (some v) (w :: rest)
+  | _, _ => 0
+
+/-- consecutive vertices are joined by a (non-zero-length) entry of the first one's edge list -/
+def isGraphPath (g : Graph) : List Nat → Bool
+  | v :: w :: rest => (g.adj.getD v []).any (fun e => e.to = w ∧ e.dist ≠ 0) && isGraphPath g (w :: rest)
+  | _ => true
+
+/-- some hop of the path (source first) is one the turn-pruning rule as coded skips -/
+def usesPrunedTurn (g : Graph) : Option Nat → List Nat → Bool
+  | prev, v :: w :: rest => prunedAsCoded g prev v w || usesPrunedTurn g (some v) (w :: rest)
+  | _, _ => false
+
 /-- as-coded cost of a vertex path (source first): what `search` accumulates in `g` along it -/
 def pathCost (g : Graph) : Option Nat → List Nat → Rat
   | prev, v :: w :: rest =>
